@@ -1907,7 +1907,11 @@ psRes_t tls13ParseCertificateAuthorities(ssl_t *ssl,
         }
     }
 
-    /* Allocate space for the issuer names and their lengths.  */
+    /* Allocate space for the issuer names and their lengths. Lists stored
+       by an earlier certificate_authorities extension (a peer can repeat
+       the extension within one CertificateRequest) are released first. */
+    psFree(keySelect->caNames, ssl->hsPool);
+    psFree(keySelect->caNameLens, ssl->hsPool);
     keySelect->nCas = nCas;
     keySelect->caNames = psCalloc(pool, nCas, sizeof(keySelect->caNames[0]));
     keySelect->caNameLens = psCalloc(pool, nCas, sizeof(keySelect->caNameLens[0]));
